@@ -50,6 +50,11 @@ type Case struct {
 	// the decoder is wrapped with the alias mangler alone and string sets are
 	// written in the format's native map spelling.
 	NoSetSlice bool `json:"no_set_slice,omitempty"`
+	// More (decoder checks only) lists further decodes made, in order, through
+	// the SAME alias-wrapped decoder value as the first one: each has its own
+	// config type, supplied leaves and elements (its NoSetSlice / More are
+	// ignored) and is judged on its own.
+	More []Case `json:"more,omitempty"`
 }
 
 // ---- generation ----
@@ -494,6 +499,22 @@ func extraWord(i int) string {
 }
 
 func genCase(src srcKind) func(*rapid.T) Case {
+	step := genStep(src)
+	return func(t *rapid.T) Case {
+		c := step(t)
+		if !src.flatten {
+			c.NoSetSlice = rapid.Bool().Draw(t, "no_set_slice")
+			// decoder value reuse: up to two more config types through the
+			// same wrapped decoder value
+			for n := rapid.SampledFrom([]int{0, 0, 1, 1, 2}).Draw(t, "more_decodes"); n > 0; n-- {
+				c.More = append(c.More, step(t))
+			}
+		}
+		return c
+	}
+}
+
+func genStep(src srcKind) func(*rapid.T) Case {
 	return func(t *rapid.T) Case {
 		s := shape.Gen(t, profile(src))
 		d := &decorator{t: t, src: src, used: map[string]bool{}}
@@ -509,7 +530,6 @@ func genCase(src srcKind) func(*rapid.T) Case {
 		g.fill(m.fields, "")
 		c := Case{Shape: s, Supply: g.supply}
 		if !src.flatten {
-			c.NoSetSlice = rapid.Bool().Draw(t, "no_set_slice")
 			c.Elems = g.fillElems()
 		}
 		return c
@@ -535,7 +555,7 @@ type supplied struct {
 	doc string // pre-rendered document spelling (slice-of-struct leaves)
 }
 
-func execute(src srcKind, T, pt reflect.Type, sup []supplied, noSetSlice bool) (val reflect.Value, err error, panicked any) {
+func execute(src srcKind, T, pt reflect.Type, sup []supplied, noSetSlice bool, shared dials.Decoder) (val reflect.Value, err error, panicked any) {
 	defer func() {
 		if r := recover(); r != nil {
 			panicked = r
@@ -614,7 +634,11 @@ func execute(src srcKind, T, pt reflect.Type, sup []supplied, noSetSlice bool) (
 	default:
 		return reflect.Value{}, fmt.Errorf("unknown source %q", src.name), nil
 	}
-	val, err = ezWrap(dec, noSetSlice).Decode(strings.NewReader(doc), typ)
+	wrapped := shared
+	if wrapped == nil {
+		wrapped = ezWrap(dec, noSetSlice)
+	}
+	val, err = wrapped.Decode(strings.NewReader(doc), typ)
 	if err != nil {
 		err = fmt.Errorf("%w (document: %s)", err, clip(doc, 600))
 	}
@@ -641,8 +665,65 @@ func clip(s string, n int) string {
 	return s
 }
 
+// innerDecoder returns a fresh decoder of the named format.
+func innerDecoder(name string) dials.Decoder {
+	switch name {
+	case "json":
+		return &djson.Decoder{}
+	case "cue":
+		return &dcue.Decoder{}
+	case "yaml":
+		return &dyaml.Decoder{}
+	case "toml":
+		return &dtoml.Decoder{}
+	}
+	return nil
+}
+
 func runCase(src srcKind) func(Case) vrt.Verdict {
+	judge := judgeStep(src)
 	return func(c Case) vrt.Verdict {
+		if src.flatten {
+			if len(c.More) > 0 {
+				return vrt.Discardf("decoder reuse in a flatten source")
+			}
+			return judge(c, c.NoSetSlice, nil)
+		}
+		// one alias-wrapped decoder value for every decode of the case
+		shared := ezWrap(innerDecoder(src.name), c.NoSetSlice)
+		v := judge(c, c.NoSetSlice, shared)
+		if v.Status != vrt.StatusOK {
+			return v
+		}
+		for i, step := range c.More {
+			sv := judge(step, c.NoSetSlice, shared)
+			switch sv.Status {
+			case vrt.StatusViolation:
+				sv.Msg = fmt.Sprintf("decode #%d of %d through one alias-wrapped decoder value (a different config type each time): %s", i+2, len(c.More)+1, sv.Msg)
+				return sv
+			case vrt.StatusDiscard:
+				return sv
+			}
+			v.NonTrivial = v.NonTrivial || sv.NonTrivial
+			v.Labels = append(v.Labels, sv.Labels...)
+		}
+		v.Labels = append(v.Labels, fmt.Sprintf("decodes-through-one-decoder-value:%d", len(c.More)+1))
+		seen := map[string]bool{}
+		uniq := v.Labels[:0]
+		for _, l := range v.Labels {
+			if !seen[l] {
+				seen[l] = true
+				uniq = append(uniq, l)
+			}
+		}
+		v.Labels = uniq
+		return v
+	}
+}
+
+func judgeStep(src srcKind) func(Case, bool, dials.Decoder) vrt.Verdict {
+	return func(c Case, noSetSlice bool, shared dials.Decoder) vrt.Verdict {
+		c.NoSetSlice = noSetSlice
 		T, err := c.Shape.Build()
 		if err != nil {
 			return vrt.Discardf("shape does not build")
@@ -707,7 +788,7 @@ func runCase(src srcKind) func(Case) vrt.Verdict {
 		}
 
 		pt := ptrify.Pointerify(T, reflect.New(T).Elem())
-		got, gerr, panicked := execute(src, T, pt, sup, c.NoSetSlice)
+		got, gerr, panicked := execute(src, T, pt, sup, c.NoSetSlice, shared)
 
 		describe := func() string {
 			var parts []string
@@ -870,6 +951,7 @@ func rule(src string) string {
 		"for the decoder checks the leaf grammar also has []ElemItem, a slice of structs whose element fields carry alias tags (aliased string, []string, struct, pointer-struct and untagged float fields, an aliased leaf below the struct fields): a supplied slice has 0..3 elements (1..3 in TOML, which cannot spell an empty array of tables), each element with its own neither / primary / alias / both pattern per aliased element field and non-zero values (elements are not pointerified, so inside an element the zero value is 'not supplied'); env, flag and pflag cannot spell slices of structs and do not get them; " +
 		"each field (leaf or struct-typed, any depth) independently gets an explicit dials tag (single word / camelCase / snake_case / kebab-case, globally unique words) or stays untagged, and a dialsalias tag with probability 1/2 (leaves) or 2/5 (struct-typed fields; at most two aliased structs on one path and no further aliases once the type has ~100 expanded names, because every aliased struct doubles the names below it); leaves not below an aliased struct may also get the source's own primary and/or alias tag (dialsenv[alias], dialsflag[alias], dialspflag[alias]; for decoders the tags of all three are noise); the combination 'source-specific primary + dialsalias, no source-specific alias' is allowed in one case in six; tag order is shuffled; Go field names are extended where needed so that flattened name concatenations stay unique. " +
 		"Per aliased field one of neither / primary only / alias only / both (half of the cases exclude 'both'); an aliased struct-typed field duplicates its subtree, 'supplied under a name' = at least one leaf of that copy supplied; other leaves set or unset at random; one scalar value in five is the zero value of its type and one collection value in four is an explicitly empty non-nil collection (NAME=\"\", -name=, [] / {}), which must count as set exactly like any other value (nil vs empty is compared exactly). " +
+		"In the decoder checks one alias-wrapped decoder value is built per case and used for 1..3 decodes in a row (1: 2/5, 2: 2/5, 3: 1/5), each with a different generated config type, its own supplied leaves and its own document, each judged on its own by the same oracle (a wrapper must not carry anything from one config type to the next). " +
 		"Executed against " + src + " with names known by construction (env: PREFIX + UPPER_SNAKE join of words; flags: '-' join of tags / field words; decoders: tag path, documents rendered by the harness; an untagged embedded struct contributes no name element in the flatten sources, JSON and Cue (promotion), the lower-cased type name in YAML and the type name in TOML; with a dials tag it is an ordinary named field; its alias copy is always a named field). " +
 		"Oracle: some field supplied under both names => an error whose text contains the quoted Go name of such a field; otherwise no error and the returned value equals the model leaf by leaf (value under either name lands, neither => nil, nothing else set). " +
 		"non-trivial = >=2 aliased field instances at different depths with different patterns; distinct = distinct case JSON"
